@@ -215,8 +215,9 @@ func (c *Ctx) checkForN(items []FItem, epiSrc string, epi *ref.AIns, note string
 		strings.ReplaceAll(src, "\n", "\r\n"),
 		strings.ReplaceAll(strings.ReplaceAll(src, " for ", " FOR "), "rof\n", "ROF ; end of block\n"),
 		"org 0\n" + src + "end\n",
+		strings.ReplaceAll(strings.ReplaceAll(src, ", ", " , "), "\n", " ; c\n"), // a trailing comment on every line, blanks around the commas
 	} {
-		if (c.unit+vi)%3 != 0 {
+		if (c.unit+vi)%4 != 0 {
 			continue // one variant per program, rotating
 		}
 		sv := mkCase(flat, m, cfg, v, fmt.Sprintf("%s; surface variant %d", note, vi))
@@ -395,7 +396,7 @@ func (c *Ctx) RunC08(tier string) {
 			c.checkForDeep(deep(cs), fmt.Sprintf("nest %v", cs))
 		}
 	}
-	rep.Bound += "; sequences of 1..14 one-line blocks with counts 0..2; nests 6x3x1, 3x3x3, 2x2x2, 6x1x1, 1x3x3; single blocks with counts 9, 10, 11, 40, 89, a 12 x i nest, nests of depth 4 and 5; one surface variant per program (CR-LF, upper-case FOR/ROF with a comment after ROF, between ORG and END)"
+	rep.Bound += "; sequences of 1..14 one-line blocks with counts 0..2; nests 6x3x1, 3x3x3, 2x2x2, 6x1x1, 1x3x3; single blocks with counts 9, 10, 11, 40, 89, a 12 x i nest, nests of depth 4 and 5; one surface variant per program (CR-LF, upper-case FOR/ROF with a comment after ROF, between ORG and END, a trailing comment on every line)"
 	rep.Counters["c08:structure-trees"] += int64(n) / int64(c.Sh.N)
 	rep.Sample(forSource([]FItem{{Block: true, Label: "blk", Counter: "i", Count: "n+1", Items: []FItem{{Tmpl: 2}, {Block: true, Counter: "j", Count: "i", Items: []FItem{{Tmpl: 1}}}}}}, "jmp blk\n"))
 }
